@@ -2,7 +2,7 @@
 C16 line-protocol driver.
 
   order                          the directive order table          → `order a,b,c,…`
-  sort <order> <items>           sortRoutes on described values     → `ok i,j,…` | `ok .` | `over20`
+  sort <order> <items>           sortRoutes on described values     → `ok i,j,…` | `ok .`
   site <variant> <items>         a generated site block through the whole adapter; the model's
                                  answer is that of `sort = <items>` (variant = spelling choices)
   adapt|madapt <text>            adapter-wide clauses (totality, determinism, validity): evaluated by
